@@ -86,7 +86,25 @@ def run_case(ctx, st, pt, p: Pep, include_plus, precision):
     ctx.begin({'text': text, 'pep': rp.to_json(p), 'include_plus': include_plus, 'precision': precision})
     st.case = {}
     try:
-        pt.condense_to_mass_mods(text if ctx.rng.random() < 0.7 else pt.parse(text), include_plus, precision)
+        r_ = ctx.rng.random()
+        if r_ < 0.65:
+            arg = text
+        elif r_ < 0.8:
+            arg = pt.parse(text)
+        else:
+            # an annotation object with a history: other queries were answered on it (or on the object it was copied
+            # from) before it is condensed
+            arg = pt.parse(text)
+            with ctx.eng.suspend():
+                try:
+                    arg.count_residues()
+                    list(arg.split())
+                    pt.mass(arg)
+                except Exception:
+                    pass
+                if ctx.rng.random() < 0.5:
+                    arg = arg.copy()
+        pt.condense_to_mass_mods(arg, include_plus, precision)
     except Exception:
         pass
     c, st.case = st.case, None
@@ -216,6 +234,11 @@ def run(ctx):
         if i % 25 == 0:
             p = Pep(p.seq)      # unmodified peptides are returned unchanged
         run_case(ctx, st, pt, p, ctx.rng.random() < 0.5, ctx.rng.randint(3, 8))
+    # protein-sized inputs (129..300 residues): shifts far from the N-terminus stay on their residues
+    import dataclasses as _dc
+    longc = _dc.replace(g, min_len=129, max_len=300, p_res=0.03)
+    for _ in range(ctx.n(48, 1500)):
+        run_case(ctx, st, pt, gp.gen_pep(ctx.rng, longc), ctx.rng.random() < 0.5, ctx.rng.randint(3, 8))
 
 
 def reproduce(kf_id):
